@@ -177,41 +177,53 @@ Proof. induction invs as [|i r IH]; intros script; cbn [run_macros length]; [ref
 (* once a client is set, further offers change nothing *)
 Theorem process_set_once cfg other b c : forall steps script,
   run_process cfg other (Some (b, c)) script steps =
-  run_process cfg other (Some (b, c)) script (filter is_invoke steps).
+  run_process cfg other (Some (b, c)) script (filter (fun st => negb (is_offer st)) steps).
 Proof.
   induction steps as [|st steps IH]; intros script; [reflexivity|].
-  destruct st as [| |inv]; cbn [run_process filter is_invoke offer]; auto.
-  f_equal. apply IH.
+  destruct st as [| |inv| |]; cbn [run_process filter is_offer negb offer]; auto; f_equal; apply IH.
 Qed.
 
-(* before any client is set every invocation panics, having evaluated, emitted and reported nothing *)
+(* before any client is set: every invocation panics, having evaluated, emitted and reported nothing,
+   and every read of the holder says "not set" *)
 Theorem process_unset cfg other : forall steps script,
-  Forall (fun st => is_invoke st = true) steps ->
-  Forall (fun o => po_panicked o = true /\ po_emitted o = [] /\ po_handled o = [] /\ po_evals o = [])
+  Forall (fun st => is_offer st = false) steps ->
+  Forall (fun o => match po_flag o with
+                   | Some b => b = false
+                   | None => po_panicked o = true /\ po_emitted o = [] /\ po_handled o = [] /\ po_evals o = []
+                   end)
          (run_process cfg other None script steps).
 Proof.
   induction steps as [|st steps IH]; intros script F; [constructor|].
-  inversion F as [|? ? Hst F']; subst. destruct st as [| |inv]; try discriminate.
-  cbn [run_process option_map].
-  rewrite (macro_unset inv script). cbn [m_panicked m_stuck m_emitted m_handled m_evals m_script].
-  constructor.
-  - cbn. repeat split; reflexivity.
-  - apply IH, F'.
+  inversion F as [|? ? Hst F']; subst. destruct st as [| |inv| |]; try discriminate; cbn [run_process option_map].
+  - rewrite (macro_unset inv script). cbn [m_panicked m_stuck m_emitted m_handled m_evals m_script].
+    constructor; [cbn; repeat split; reflexivity|apply IH, F'].
+  - constructor; [reflexivity|apply IH, F'].
+  - constructor; [reflexivity|apply IH, F'].
 Qed.
 
-(* after the observed client has been set first, the invocations of the process are, one after the
-   other, the tagged quiet sends on that client - whatever else is offered later *)
+(* after a client has been set every read of the holder says "set", whatever is offered later *)
+Theorem process_reads_set cfg other b c : forall steps script,
+  Forall (fun o => match po_flag o with Some f => f = true | None => True end)
+         (run_process cfg other (Some (b, c)) script steps).
+Proof.
+  induction steps as [|st steps IH]; intros script; [constructor|].
+  destruct st as [| |inv| |]; cbn [run_process offer]; try apply IH; constructor; try apply IH; exact I || reflexivity.
+Qed.
+
+(* with the observed client in the holder, the invocations of the process are, one after the other,
+   the tagged quiet sends on that client - whatever else is offered or read in between *)
 Theorem process_mine cfg other : forall steps script,
   Forall2 (fun o r => po_panicked o = false /\
                       match r with
                       | Some x => po_stuck o = false /\ po_emitted o = o_emitted x /\ po_handled o = o_handled x
                       | None => po_stuck o = true
                       end)
-          (run_process cfg other (Some (true, cfg)) script steps)
+          (filter (fun o => match po_flag o with None => true | Some _ => false end)
+                  (run_process cfg other (Some (true, cfg)) script steps))
           (reference_sends cfg (invocations steps) script).
 Proof.
   induction steps as [|st steps IH]; intros script; [constructor|].
-  destruct st as [| |inv]; cbn [run_process offer invocations flat_map app]; try apply IH.
+  destruct st as [| |inv| |]; cbn [run_process offer invocations flat_map app filter read_obs po_flag]; try apply IH.
   cbn [option_map snd reference_sends].
   pose proof (macro_equiv cfg inv script) as M. cbv zeta in M. destruct M as (P & Ev & M).
   destruct (send_call cfg Quiet (reference_call inv) script) as [[o rest]|] eqn:SC.
@@ -230,7 +242,9 @@ Theorem process_other cfg other c : forall steps script,
          (run_process cfg other (Some (false, c)) script steps).
 Proof.
   induction steps as [|st steps IH]; intros script; [constructor|].
-  destruct st as [| |inv]; cbn [run_process offer]; try apply IH.
-  constructor; [|apply IH]. cbn [po_panicked po_emitted po_handled option_map snd]. repeat split.
-  pose proof (macro_equiv c inv []) as M. cbv zeta in M. exact (proj1 M).
+  destruct st as [| |inv| |]; cbn [run_process offer]; try apply IH.
+  - constructor; [|apply IH]. cbn [po_panicked po_emitted po_handled option_map snd]. repeat split.
+    pose proof (macro_equiv c inv []) as M. cbv zeta in M. exact (proj1 M).
+  - constructor; [cbn; repeat split|apply IH].
+  - constructor; [cbn; repeat split|apply IH].
 Qed.
